@@ -5,6 +5,11 @@ CHECKS = {
   note="Trusted: go/ssa, the gosmt executor, z3/cvc5; stubs: io.Reader/ByteReader and binary.ReadUvarint as a nondeterministic token oracle (every read returns arbitrary bytes/value or EOF), fmt.Errorf/errors.New opaque, float geometry run on decoded values (ExpandForSubregions, initBound, initLoopProperties, initEdgesAndIndex, facePiQitoXYZ) stubbed out = outside the claim; element counts above the split bound not explored.",
   technique="go/ssa symbolic execution + SMT (QF_BV), z3 4.8.12/5.1.0 portfolio, native replay of models",
   design="DESIGN.md §4 C15"),
+ "C11": dict(
+  text="Bounded symbolic model checking of the real CellUnion code against the leaf-interval model (covered(U,x) for a universally quantified probe leaf x): Normalize on sorted inputs of length <= 4 (quick) / 6 (thorough) plus the inductive step of its main loop (normalized prefix <= 3/5 + one more id), sort permutation, idempotence, ContainsCellID/IntersectsCellID/Contains/Intersects, intersection, intersection with a cell, union, difference (level gap <= 1/2), LeafCellsCovered. A feasible path beyond an unwinding bound is replayed natively: a hang is reported as a violation.",
+  note="Trusted: go/ssa, gosmt, solvers. sort.Sort modelled as a compare-exchange network running the real Less/Swap (n<=8) and checked to return a sorted permutation; in Normalize harnesses the sort is the identity on inputs assumed sorted. Lengths above the stated bounds, CellUnionFromRange/MaxTile tiling, CellIndex and s2intersect are outside this check (see DESIGN).",
+  technique="go/ssa symbolic execution + SMT (QF_BV) with probe-leaf reference model, z3 5.1.0/4.8.12 portfolio, native replay",
+  design="DESIGN.md §4 C11"),
 }
 NOT_BUILT = "check not built yet (designed in DESIGN.md section 4)"
 NA = {}
